@@ -23,7 +23,7 @@ RULE = ('(a) the C03 history generator (minus queue/sorted-iteration calls Fanou
         'calls judged + keys routed; distinct_nontrivial = distinct (operation, outcome, shard count) cells + distinct '
         '(key class, shard count, hash-seed pair) routing cells')
 DISTINCT = ('cells', 'routing_cells')
-REQUIRED = ('bulk_removals_while_shards_locked', 'histories_with_stored_pickle_protocol', 'calls_judged', 'histories', 'shard_counts_seen', 'keys_cross_process', 'golden_hashes_compared',
+REQUIRED = ('check_flag_cases', 'bulk_removals_while_shards_locked', 'histories_with_stored_pickle_protocol', 'calls_judged', 'histories', 'shard_counts_seen', 'keys_cross_process', 'golden_hashes_compared',
             'equal_key_pairs', 'check_damage_cases', 'aggregate_calls', 'partial_reopen_cases', 'handle_exchanges', 'skewed_culls', 'settings_reloaded_through_another_handle')
 ASSUMPTIONS = ('iteration order over shards is shard-major by design: compared as a permutation',
                'golden routing was recorded from the pinned commit by tools/mkgolden.py')
@@ -153,6 +153,24 @@ def check_damage(dc, sc, res, rng, shards, label):
         if len(hits) != 1 or others:
             res.violation('damage "%s" in shard %d of %d: check() reported %r' % (kind, target, shards, warns[:4]),
                           {'label': label, 'victim': victim})
+            return
+        # the two flags of check() reach every shard as given: retry alone reports and changes nothing, fix repairs
+        def files_now():
+            return {i: sorted(observe.list_files(os.path.join(d, '%03d' % i))[0].items()) for i in range(shards)}
+        before = files_now()
+        again = [str(w.message) for w in f.check(retry=True)]
+        if sorted(again) != sorted(warns) or files_now() != before:
+            res.violation('check(retry=True) after damage "%s" in shard %d of %d reported %r (plain check: %r) and %s the files'
+                          % (kind, target, shards, again[:4], warns[:4], 'changed' if files_now() != before else 'kept'),
+                          {'label': label, 'victim': victim})
+            return
+        spelled = rng.randrange(3)
+        fixed = [str(w.message) for w in (lambda: f.check(fix=True), lambda: f.check(True), lambda: f.check(True, False))[spelled]()]
+        left = [str(w.message) for w in f.check()]
+        res.count('check_flag_cases')
+        if not [w for w in fixed if expect in w] or left:
+            res.violation('after check(fix=True) (reported %r) on damage "%s" in shard %d of %d a plain check() still reports %r'
+                          % (fixed[:4], kind, target, shards, left[:4]), {'label': label, 'victim': victim})
     finally:
         f.close()
         sc.drop(d)
